@@ -79,7 +79,10 @@ def observe_fit(cfg, X, y, script_seed, fast_rng=None):
                 a = max(dim, 1) / 4.0
                 gammas = [max(1e-300, -math.log(1 - r.u01()) * a * r.uniform(0.3, 2.0)) for _ in range(6)]
                 scripts.append({"normals": normals, "gammas": gammas})
-                c.obj._rng = seams.ScriptedSystemRandom(normals=normals, gammas=gammas)
+                if cfg.get("rs"):     # the seeded (`except AttributeError`: RandomState) branch of Vector.randomise
+                    c.obj._rng = c03.ScriptedRS2(normals=normals, gammas=gammas)
+                else:
+                    c.obj._rng = seams.ScriptedSystemRandom(normals=normals, gammas=gammas)
         return seams.interpose.REAL
 
     so.fmin_l_bfgs_b = wrap
@@ -121,7 +124,8 @@ def gen_cfg(r):
     else:
         C = r.choice([1.0, r.loguniform(1e-2, 1e2)])
     return {"eps": eps, "C": C, "norm": r.choice([1.0, r.loguniform(0.1, 10.0)]), "d": r.randint(1, 6),
-            "n": r.randint(10, 200), "classes": r.randint(2, 4), "intercept": r.chance(0.5), "max_iter": r.choice([1, 3, 10])}
+            "n": r.randint(10, 200), "classes": r.randint(2, 4), "intercept": r.chance(0.5), "max_iter": r.choice([1, 3, 10]),
+            "rs": r.chance(0.4)}
 
 
 def close(a, b, rel, abs_=0.0):
@@ -318,17 +322,17 @@ def ref_calib(eps, c, s, alpha, n):
 def stat_vector(ctx, r, n_draws):
     from scipy.special import gammainc, betainc
     thr = c03.dkw_threshold(n_draws)
-    for tag in ("plain", "fallback"):
+    for tag in ("plain", "fallback", "seeded"):
         d = r.randint(1, 6)
         s = r.loguniform(0.5, 3.0)
         n = r.randint(10, 200)
-        if tag == "plain":
+        if tag in ("plain", "seeded"):
             eps, alpha = r.loguniform(1.0, 10.0), r.loguniform(1.0, 10.0)
         else:
             eps, alpha = r.loguniform(0.05, 0.5), r.loguniform(0.01, 0.2)
         epsp, _ = ref_calib(eps, 0.25, s, alpha, n)
         seed = r.next()
-        rng = c03.FastRandom(seed)
+        rng = np.random.RandomState(seed % (2 ** 32)) if tag == "seeded" else c03.FastRandom(seed)
         m = M.Vector(epsilon=eps, function_sensitivity=0.25, data_sensitivity=s, dimension=d, alpha=alpha, n=n, random_state=rng)
         fn = c03.zero_fn(d)
         z = np.zeros(d)
@@ -405,6 +409,8 @@ FIXED = [
     {"eps": 1.0, "C": 1.0, "norm": 1.0, "d": 3, "n": 50, "classes": 2, "intercept": True, "max_iter": 3},
     {"eps": 0.1, "C": 100.0, "norm": 2.0, "d": 2, "n": 20, "classes": 3, "intercept": False, "max_iter": 3},
     {"eps": 0.05, "C": 50.0, "norm": 1.0, "d": 6, "n": 200, "classes": 4, "intercept": True, "max_iter": 1},
+    {"eps": 2.0, "C": 0.5, "norm": 1.5, "d": 4, "n": 60, "classes": 3, "intercept": True, "max_iter": 3, "rs": True},
+    {"eps": 0.1, "C": 100.0, "norm": 2.0, "d": 2, "n": 20, "classes": 2, "intercept": False, "max_iter": 3, "rs": True},
 ]
 
 
@@ -431,7 +437,7 @@ def check(ctx):
         pend.append((cfg, dseed, X, calls, opts, scripts, obs, len(all_lines), len(lines), rows))
         all_lines += lines
     if cfgs:
-        cfg, dseed = cfgs[3] if len(cfgs) > 3 else cfgs[0]
+        cfg, dseed = cfgs[5] if len(cfgs) > 5 else cfgs[0]
         ctx.sample({"configuration": cfg, "data_seed": dseed})
     outs = leanio.run_driver("Samplers", all_lines) if all_lines else []
     for cfg, dseed, X, calls, opts, scripts, obs, a, ln, rows in pend:
